@@ -36,7 +36,21 @@ pub fn gen(rng: &mut Rng, tier: Tier) -> Scn {
         if rng.chance(0.2) {
             o.carousel = Some(CarouselSpec::DelayMs(rng.range(0, 20)));
         }
-        variants.push(match rng.below(8) {
+        variants.push(match rng.below(10) {
+            8 | 9 => {
+                // a stream that is not at its start when flute gets it (all the more with no MD5 pass)
+                if rng.chance(0.7) {
+                    o.md5 = false;
+                }
+                SourceSpec::StreamAt(
+                    match rng.below(3) {
+                        0 => ReadSched::Full,
+                        1 => ReadSched::Fixed(*rng.pick(&[3usize, 64, 1000])),
+                        _ => ReadSched::Random { seed: rng.next_u64(), max: *rng.pick(&[10usize, 100, 5000]) },
+                    },
+                    *rng.pick(&[1u32, 100, 500, 999, 1000, 1000]),
+                )
+            }
             0 => SourceSpec::Stream(ReadSched::Full),
             1 => SourceSpec::Stream(ReadSched::One),
             2 => SourceSpec::Stream(ReadSched::Fixed(*rng.pick(&[2usize, 3, 5, 7, 64, 1000]))),
@@ -84,7 +98,10 @@ pub fn run(scn: &Scn, ctx: &Ctx, scratch: &Path) {
     if a.pkts.iter().any(|p| p.dec.toi != 0) {
         ctx.borrow_mut().nontrivial = true;
     }
-    let short_reads = scn.variants.iter().any(|v| matches!(v, SourceSpec::Stream(s) if *s != ReadSched::Full));
+    let short_reads = scn.variants.iter().any(|v| matches!(v, SourceSpec::Stream(s) | SourceSpec::StreamAt(s, _) if *s != ReadSched::Full));
+    if scn.variants.iter().any(|v| matches!(v, SourceSpec::StreamAt(..))) {
+        ctx.borrow_mut().count_fault("stream-not-at-start");
+    }
     if short_reads {
         ctx.borrow_mut().count_fault("short-read");
     }
